@@ -57,7 +57,7 @@ fn main() {
         "sections" => sections::main(seed, &tier, only.as_deref()),
         "par" => par::main(seed, &tier, &role),
         "visit" => visit::main(seed, &tier, only.as_deref()),
-        "visit-deep" => visit::deep(args[2].parse().unwrap()),
+        "visit-deep" => visit::deep_shape(args[2].parse().unwrap(), args.get(3).map(|s| s.as_str()).unwrap_or("blocks")),
         "builder" => builder::main(seed, &tier, only.as_deref()),
         "code" => code::main(seed, &tier, only.as_deref()),
         "offsets" => offsets::main(seed, &tier, only.as_deref()),
